@@ -3,6 +3,7 @@ import concurrent.futures as cf
 import json
 import random
 
+import c03_env
 import common as C
 import corpus
 import hist
@@ -140,17 +141,29 @@ def run_job(job):
 
 def run(rep, tier, seed, proof_ok):
     n_prog = 5 if tier == "quick" and proof_ok else 50
+    n_env = c03_env.n_programs(tier)
     rep.rule = (f"{n_prog} random pipelines x {{PYTHONHASHSEED 0/1/7/random, other working directory, fresh package directory per run, "
                 "store kinds local/memory/noop/local+object-cache, extra_debug off, graph export on, after earlier evaluations and a "
                 "variable change + revert in the same process, source edits that keep the compiled code (comment / default value / decorator path / "
                 "revert) made while the process lives vs a fresh process on the same files, the same single-module code run as the __main__ script and "
-                "as IPython notebook cells (with redefinition of the cells)}: every signature map must equal the baseline and the Coq model's; plus the "
+                "as IPython notebook cells (with redefinition of the cells)}: every signature map must equal the baseline and the Coq model's; plus "
+                f"the execution environment of an evaluation: {n_env} deep pipelines (a chain of 60-100 helper functions over two modules linked by plain calls, "
+                "by functions passed by name to map / max(key=) / an apply helper / bound to a local alias, by dds.keep nodes, a dds.load at the bottom; entry "
+                "through dds.eval or dds.keep) x {caller stack depth " + ("0/50/100/200/400/800" if tier == "quick" else "0..975 step 25") + " extra frames under the default "
+                "recursion limit, recursion limits 350/500/700/3000/20000 with caller depths up to 3000 (+ random limit x depth x thread x tracer x source-file combinations in the thorough tier), a worker "
+                "thread, sys.settrace / sys.setprofile installed, source file of the helper or of the entry module gone / replaced by its .pyc / package "
+                "directory renamed after import, linecache cleared, helper module imported from a .pyc without source, PYTHONHASHSEED=random}: each environment "
+                "must hand the same path -> signature map to the store as the reference (limit 20000, shallow stack, sources in place; its value must equal the "
+                "plain execution of the same text) and return the same value, or fail loudly with no other map synced and no blob stored under a key the reference "
+                "does not assign; plus the "
                 f"pinned corpus corpus/C03 ({len(corpus.corpus_programs())} programs): implementation and model must reproduce the "
                 "committed signatures byte for byte; distinct = distinct (program, variant); non-trivial = the evaluation keeps at least one path")
     plans = [plan(seed * 1000 + i) for i in range(n_prog)]
     flat = [j for pl in plans for j in pl["jobs"]]
     with cf.ThreadPoolExecutor(max_workers=C.NPROC) as ex:
-        flat_res = list(ex.map(run_job, flat))
+        flat_fut = [ex.submit(run_job, j) for j in flat]
+        env_started = c03_env.start(tier, seed, ex)
+        flat_res = [f.result() for f in flat_fut]
         corp = ex.submit(corpus.check)
         corp = corp.result()
     k = 0
@@ -245,6 +258,8 @@ def run(rep, tier, seed, proof_ok):
     if sig_feat.get("after-earlier-evaluation") != sig_feat.get("fresh"):
         rep.violation("history-dependent:name-clash", "the signature of a function reading a tracked variable depends on whether a function of another module "
                       "that mentions a function of the same name was analysed earlier in the process", {"signatures_of_/feat": sig_feat, "events": ncs[1][1]})
+    # the execution environment of an evaluation (caller stack depth, recursion limit, thread, tracer, source files, ...)
+    env_stats = c03_env.finish(rep, env_started)
     npin = 0
     for r in corp:
         rep.case("corpus:" + r["name"], nontrivial=bool(r["pinned"]))
@@ -255,11 +270,13 @@ def run(rep, tier, seed, proof_ok):
         if r["model"] != r["pinned"]:
             rep.violation("model-mismatch:corpus", f"pinned corpus entry {r['name']}: the Coq model no longer reproduces the committed signatures",
                           {"entry": r["name"], "pinned": r["pinned"], "model": r["model"]})
-    rep.extra["input_distribution"] = {"programs": len(plans), "variants": vcount, "corpus_entries": npin}
+    rep.extra["input_distribution"] = {"programs": len(plans), "variants": vcount, "corpus_entries": npin, "execution_environments": env_stats}
 
 
 def replay(path):
     r = json.load(open(path))["replay"]
+    if "exec_env" in r:
+        return c03_env.replay(r)
     if "entry" in r:
         res = [x for x in corpus.check() if x["name"] == r["entry"]][0]
         print(json.dumps(res, indent=1))
